@@ -90,7 +90,7 @@ package routing
 // nothing was written yet, or the backup taken at the start was restored (unless the restore itself failed).
 //@ func (*HandlingDataManager).handleConfiguration.func1
 //@   prop C08
-//@   requires rd != nil && !gfailed && !gok
+//@   requires rd != nil && !gfailed && !gok && grestoreOK
 //@   modifies heap, fsdom, fsys, gfailed, gok, grestoreOK
 //@   allocates ConfigurationPayload, FileSystemBackUp, FileSystemOperation, cell, map
 //@   ensures[rolled-back-on-failure] gfailed ==> diskAsBefore() || !grestoreOK
@@ -101,7 +101,7 @@ package routing
 //@   modifies fsdom, fsys
 //@ func (*HandlingDataManager).handleApplyFlows.func1
 //@   prop C08
-//@   requires rd != nil && !gfailed && !gok
+//@   requires rd != nil && !gfailed && !gok && grestoreOK
 //@   modifies heap, fsdom, fsys, gfailed, gok, grestoreOK
 //@   allocates ConfigurationPayload, FileSystemBackUp, FileSystemOperation, cell, map
 //@   ensures[rolled-back-on-failure] gfailed ==> diskAsBefore() || !grestoreOK
